@@ -894,6 +894,8 @@ def generic_eq(ctx, a, b):
         return And([generic_eq(ctx, x.v, y.v) for x, y in zip(a.items, b.items)] or [BoolVal(True)])
     if a is UNIT and b is UNIT:
         return BoolVal(True)
+    if isinstance(a, (RcV, BoxV)) and isinstance(b, (RcV, BoxV)):
+        return generic_eq(ctx, a.cell.v, b.cell.v)
     if isinstance(a, z3.ExprRef) and isinstance(b, z3.ExprRef):
         if is_fp(a):
             return z3.fpEQ(a, b)
@@ -1046,6 +1048,14 @@ def as_seq(ctx, v):
 @model(r'^Vec::new$|^VecDeque::new$|^Vec::with_capacity$|^VecDeque::with_capacity$|^<Vec<.*> as Default>::default$')
 def m_vec_new(ctx, args, callee):
     return Seq([], 'VecDeque' if 'VecDeque' in callee else 'Vec')
+
+
+@model(r'^(std|alloc)::vec::from_elem$')
+def m_vec_from_elem(ctx, args, callee):
+    n = conc(args[1])
+    if n is None:
+        n = ctx.concretize(args[1], range(0, 9))
+    return Seq([deep_clone(ctx, args[0]) for _ in range(n)])
 
 
 @model(r'^Vec::push$|^VecDeque::push_back$')
@@ -1869,6 +1879,8 @@ def key_of(ctx, k):
         return ('e', d) + tuple(key_of(ctx, x) for x in k.p.get(d, []))
     if hasattr(k, 'map_key'):
         return k.map_key(ctx)
+    if isinstance(k, (RcV, BoxV)):
+        return key_of(ctx, k.cell.v)
     if k is UNIT:
         return ('u',)
     raise Unmodelled('map key %r' % (type(k).__name__,))
@@ -1987,6 +1999,20 @@ def m_set_insert(ctx, args, callee):
         return m.m_set_insert(ctx, args[1])
     r = m.insert(ctx, args[1], UNIT)
     return BoolVal(r.d == 0)
+
+
+@model(r'^<(HashSet|BTreeSet|HashMap|BTreeMap)<.*> as Extend<.*>>::extend$')
+def m_map_extend(ctx, args, callee):
+    m = as_map(ctx, args[0])
+    it = to_iter(ctx, args[1])
+    while True:
+        x = it.next(ctx)
+        if x is None:
+            return UNIT
+        if m.kind.endswith('Set'):
+            m.insert(ctx, x, UNIT)
+        else:
+            m.insert(ctx, x.f[0], x.f[1])
 
 
 @model(r'^' + _MAPS + r'::get$|^' + _MAPS + r'::get_mut$')
@@ -2302,7 +2328,7 @@ def m_checked_arith(ctx, args, callee):
     return mk_bool_enum(Not(r.f[1]), r.f[0])
 
 
-@model(r'^<Ordering as PartialEq>::(eq|ne)$|^<std::cmp::Ordering as PartialEq>::(eq|ne)$')
+@model(r'^<Ordering as PartialEq>::(eq|ne)$|^<std::cmp::Ordering as PartialEq>::(eq|ne)$|^<(std::io::)?ErrorKind as PartialEq>::(eq|ne)$')
 def m_ordering_eq(ctx, args, callee):
     a = ctx.deref(args[0]); b = ctx.deref(args[1])
     da = BitVecVal(a.d, 64) if isinstance(a.d, int) else a.d
